@@ -498,7 +498,7 @@ impl Run {
                 let prefix = got.len() <= want.len() && got[..] == want[..got.len()];
                 rec.check(prefix, &format!("order-or-duplicate@{kind}"), &format!("{name} got {} want prefix of {}", show_list(&got), show_list(&want)));
                 if self.flushed_clean {
-                    rec.check(got == want, &format!("lost-item-after-flush@{kind}"), &format!("{name} got {} want {}", show_list(&got), show_list(&want)));
+                    rec.check(got == want, &format!("lost-item-after-flush-or-close@{kind}"), &format!("{name} got {} want {}", show_list(&got), show_list(&want)));
                 }
             }
             if self.has_log {
@@ -540,7 +540,8 @@ impl Run {
                     self.client_armed = true;
                     self.next_since_ready = false;
                 }
-                if op == "flush" {
+                if op == "flush" || op == "close" {
+                    // a Ready flush *or close* means everything sent so far has reached the downstream sinks
                     self.flushed_clean = true;
                 }
                 let d = self.delta();
@@ -868,12 +869,15 @@ fn gen_case(rng: &mut Rng, kind: &str, nd: usize, steps: usize, rude: bool) -> V
             _ => ls.push("ready".into()),
         }
     }
-    for _ in 0..10 {
-        ls.push("flush".into());
+    // usually flush until clean and then close; one run in three closes with items possibly still buffered
+    if !rng.chance(1, 3) {
+        for _ in 0..10 {
+            ls.push("flush".into());
+        }
     }
-    ls.push("close".into());
-    ls.push("close".into());
-    ls.push("close".into());
+    for _ in 0..(if rng.chance(1, 2) { 3 } else { 12 }) {
+        ls.push("close".into());
+    }
     ls
 }
 
